@@ -222,16 +222,22 @@ func (l c08) Exec(env *core.Env) *core.Result {
 	defer func() { rt.Cur = nil }()
 	var trace []string
 	dirty := false // a mutation or permutation happened
+	// midOp[t]: caller t is inside an operation (on a changed tree it may be parked there, at a lock say). The document
+	// is not rearranged under the feet of a selection in progress: that would be a caller's data race, not a finding.
+	midOp := make([]bool, int(w["tasks"])+1)
 	for t := 0; t < int(w["tasks"]); t++ {
 		t := t
 		sim.Go("caller", func() {
 			var lastOCI *trustpolicy.OCITrustPolicy
 			var lastBlob *trustpolicy.BlobTrustPolicy
+			defer func() { midOp[t] = false }()
 			for _, op := range p.Ops {
 				if op.Task != t {
 					continue
 				}
+				midOp[t] = false
 				rt.Yield("op")
+				midOp[t] = true
 				switch op.Kind {
 				case "select":
 					path := c08Refs[int(op.Int(0))%len(c08Refs)]
@@ -328,6 +334,14 @@ func (l c08) Exec(env *core.Env) *core.Result {
 				case "permute-inplace":
 					// the SAME document object (and whatever was built on it): its statements are put into another
 					// order in place, as a reload into the same object would do
+					others := false
+					for t2, busy := range midOp {
+						others = others || (busy && t2 != t)
+					}
+					if others {
+						res.Probe("in_place_permutation_skipped_another_caller_is_mid_operation")
+						continue
+					}
 					fresh := cloneOCI(frozen, nthPerm(nst, op.Int(0)))
 					copy(shared.TrustPolicies, fresh.TrustPolicies)
 					dirty = true
